@@ -7,6 +7,7 @@ import common
 ID = "C11"
 LEVEL = "proof"
 PROPS = "Props/C11.vo"
+USES_TRANSLATOR = True      # coq/gen/GenIP.v (harness/translate.py) is part of this property's model
 MODEL_TARGETS = ["Corr/C11.vo"]
 OBLIGATION_FILES = ["Props/C11.v", "gen/GenOK11.v"]
 MODEL_TARGETS = ["Corr/C11.vo"]
